@@ -247,6 +247,10 @@ def run(eng, run):
     check_handler_attrs(eng, run, "C06.attr", ("serializers", "protocol", "lowlevel._stream"), 8,
                         resolve=lambda fn, expr: ar.attr_names(fn.cls, fn, expr) if fn.cls is not None else None)
     run.tables["raise_table"] = RAISE_TABLE
+    # the optimistic part of the escape analysis, spelled out: callees outside the raise table and calls without a resolved target
+    run.tables["external_callees_assumed_to_raise_nothing_input_dependent"] = sorted(summ.assumed_silent)
+    run.tables["calls_without_resolved_target"] = sorted({n for v in summ.unresolved.values() for n in v})
+    run.counters["calls_without_resolved_target"] = len(run.tables["calls_without_resolved_target"])
 
 
 # ---------------------------------------------------------------------------------------------- self-test corpus
